@@ -967,9 +967,10 @@ class SArr:
             v = idx.elem(*ix)
             c.obl.append(Obligation('fancy-index-in-bounds', list(c.pc) + [rng], z3.And(-n <= v, v < n), 'safety', list(c.prefix[:c.pos])))
         base, basenan = self.elem, self.nan
+        nonneg = getattr(idx, 'nonneg', False)
 
         def nrm(v):
-            return z3.If(v < 0, v + n, v)
+            return v if nonneg else z3.If(v < 0, v + n, v)
         r = SArr(idx.shape_e, lambda *ix: base(nrm(idx.elem(*ix))), self.kind,
                  nan=(None if basenan is None else (lambda *ix: basenan(nrm(idx.elem(*ix))))))
         r.gather_of = (self, idx)
@@ -983,9 +984,10 @@ class SArr:
             v = idx.elem(i)
             c.obl.append(Obligation('fancy-index-in-bounds', list(c.pc) + [z3.And(0 <= i, i < idx.shape_e[0])], z3.And(-n <= v, v < n), 'safety', list(c.prefix[:c.pos])))
         base, basenan = self.elem, self.nan
+        nonneg = getattr(idx, 'nonneg', False)
 
         def nrm(v):
-            return z3.If(v < 0, v + n, v)
+            return v if nonneg else z3.If(v < 0, v + n, v)
         return SArr((idx.shape_e[0],) + self.shape_e[1:], lambda i, *rest: base(nrm(idx.elem(i)), *rest), self.kind,
                     nan=(None if basenan is None else (lambda i, *rest: basenan(nrm(idx.elem(i)), *rest))))
 
